@@ -81,6 +81,7 @@ pub struct Sc {
     pub kind: Kind,
 }
 
+#[derive(Clone, Copy)]
 pub struct C05;
 
 const MAX_CLASSES: usize = 22;
